@@ -45,7 +45,7 @@ def _profile(idx):
     return gen.profile("done", ondone_forward=False, p_root_final=0.2 if idx % 2 else 0.05,
                        p_final=0.4, p_ondone=0.85, p_final_trans=0.3, p_after=0.04,
                        p_history=0.2, maxit=40, machine_output=(idx % 3 == 0),
-                       p_parallel=0.4, p_compound=0.5)
+                       p_parallel=0.4, p_compound=0.5, p_falsy_out=0.35 if idx % 2 else 0.0)
 
 
 def _marker_of(transition):
